@@ -104,8 +104,37 @@ def _dict_carriers(f, opt, derived):
     return out
 
 
+_PRIMARY = set()  # ids of methods resolved through the caller's own class (an override with a narrower signature is a loud TypeError)
+
+
+def _trampoline_target(ctx, g):
+    """def g(tn: Cls, *args, **kwargs): return tn.<method>(*args, **kwargs)  ->  the method (pickleable trampolines)."""
+    body = [st for st in g.node.body if not (isinstance(st, ast.Expr) and isinstance(st.value, ast.Constant))]
+    if len(body) != 1 or not isinstance(body[0], ast.Return) or not isinstance(body[0].value, ast.Call):
+        return None
+    call = body[0].value
+    if not (isinstance(call.func, ast.Attribute) and isinstance(call.func.value, ast.Name) and g.node.args.args and call.func.value.id == g.node.args.args[0].arg):
+        return None
+    if not (any(isinstance(a, ast.Starred) for a in call.args) and any(k.arg is None for k in call.keywords)):
+        return None
+    ann = g.node.args.args[0].annotation
+    cls = ctx.prog.resolve_expr(g.module, ann) if ann is not None else None
+    if cls is None or not hasattr(cls, "find"):
+        return None
+    return cls.find(call.func.attr)
+
+
 def _candidates(ctx, f, c):
     p = ctx.prog
+    # higher-order helper: helper(fn=<trampoline>, ..., **options) calls fn(tn, G, where, **options)
+    fnkw = next((k.value for k in c.keywords if k.arg == "fn"), None)
+    if isinstance(fnkw, ast.Name):
+        g = p.lookup(f.module, fnkw.id)
+        helper = p.lookup(f.module, c.func.id) if isinstance(c.func, ast.Name) else None
+        if isinstance(g, FuncInfo) and isinstance(helper, FuncInfo) and helper.node.args.kwarg is not None and "fn" in helper.params:
+            t = _trampoline_target(ctx, g)
+            if t is not None:
+                return [t]
     if isinstance(c.func, ast.Name):
         # a local bound to one of several functions: g = {1: f1, 2: f2}[k] / g = f1 if c else f2 / g = f1
         local = []
@@ -144,6 +173,7 @@ def _candidates(ctx, f, c):
             m = f.cls.find(c.func.attr)
             if m is not None:
                 subs = [sc.methods[c.func.attr] for sc in f.cls.all_subclasses() if c.func.attr in sc.methods]
+                _PRIMARY.add(id(m))
                 return [m] + subs
         return cands
     return []
@@ -185,6 +215,10 @@ def rule_option_delivery(ctx, opts=("max_bond", "cutoff"), modules=None, rule="c
                     rm = p.deref_alias(m)[0] if m.is_alias else m
                     if rm is not None:
                         real.append((m, rm))
+                if real and id(real[0][0]) in _PRIMARY and opt in real[0][1].params:
+                    # self.<method>: the method of the caller's own class accepts the option; overrides that do not are
+                    # incompatible with this call anyway and cannot silently drop it
+                    real = [x for x in real if opt in x[1].params]
                 if not real or not all(opt in rm.params for _, rm in real):
                     continue
                 total += 1
